@@ -557,6 +557,7 @@ def run(ctx):
                     hist.append(f"connect {a}->{b} {t.__name__}")
                 for t in sorted(set(net.edges["type"])):
                     net.record(f"{t}_{'s' if t == 'IonotropicSynapse' else 'c'}")
+                    net.record(f"i_{t}")          # synaptic CURRENTS are indexed by synapse, too
                 net.cell(2).record("v")
                 recs_before = [(int(i), str(s)) for i, s in zip(net.recordings.rec_index, net.recordings.state)]
                 c = rng.randrange(3)
@@ -583,7 +584,7 @@ def run(ctx):
     for v in viol:
         v.setdefault("finding_class", None)
     return {"evaluations": evals, "distinct_nontrivial": len(distinct),
-            "rule": "random histories (depth 2..7/12) over 14 operations (make_trainable on geometric keys, v, channel parameters and states; delete_trainables through views against an independent expectation) on random views of irregular cells, the first ones seeded with shared-column patterns (Na/K vt, K/Km eK and i_K, CaL/CaT eCa) on the whole module and on disjoint views (the channel is deleted through a view that does not contain its partner): after EVERY operation contiguity, channel registry, parameters-where-channel, currents, and the row references of recordings/inputs/groups/trainables are checked on the public tables; then integrate is compared with a module rebuilt from the tables only; insert+delete round trips for every channel; recordings of several record() calls deleted through one view; delete_channel through views of networks whose cells have different channels; network histories with synaptic recordings and view-level deletions; distinct by (cell, history)",
+            "rule": "random histories (depth 2..7/12) over 14 operations (make_trainable on geometric keys, v, channel parameters and states; delete_trainables through views against an independent expectation) on random views of irregular cells, the first ones seeded with shared-column patterns (Na/K vt, K/Km eK and i_K, CaL/CaT eCa) on the whole module and on disjoint views (the channel is deleted through a view that does not contain its partner): after EVERY operation contiguity, channel registry, parameters-where-channel, currents, and the row references of recordings/inputs/groups/trainables are checked on the public tables; then integrate is compared with a module rebuilt from the tables only; insert+delete round trips for every channel; recordings of several record() calls deleted through one view; delete_channel through views of networks whose cells have different channels; network histories with recordings of synaptic states and currents and view-level deletions; distinct by (cell, history)",
             "samples": samples, "violations": viol[:20], "traces_validated_against_impl": nmodel}
 
 
